@@ -550,7 +550,7 @@ def group_blocks(rng, graph, kmax):
     return list(blocks.values())
 
 
-def layered_case(rng, nmax=9, n_intermediate=None, coarse_last=False, squash=False):
+def layered_case(rng, nmax=9, n_intermediate=None, coarse_last=False, squash=False, reuse_names=False):
     """One C06 input.  Levels: atoms < parts F (level 0 blocks) < groups (level 1) < ... ; returns the
     layered string (base + intermediate coarse fragment levels + last level) and the flat two-level string."""
     m = rand_molecule(rng, nmax=nmax)
@@ -630,6 +630,12 @@ def layered_case(rng, nmax=9, n_intermediate=None, coarse_last=False, squash=Fal
         if any(d['order'] > 4 for _, _, d in gj.edges(data=True)):
             return None
         nm = {bi: 'G%dx%d' % (j, bi) for bi in range(len(blocks))}
+        if reuse_names:
+            # a block may be named like one of its own members (the same fragment name is then defined on
+            # two levels with different content; every level has its own name space)
+            for bi, blk in enumerate(blocks):
+                if rng.random() < 0.5:
+                    nm[bi] = names[-1][rng.choice([x for x in blk])]
         defs = []
         for bi, blk in enumerate(blocks):
             sub_edges = {(a, b): d['order'] for a, b, d in gprev.edges(data=True) if bowner[a] == bi and bowner[b] == bi}
@@ -661,8 +667,8 @@ def layered_case(rng, nmax=9, n_intermediate=None, coarse_last=False, squash=Fal
         expect = {'nodes': [[i, part_names[i]] for i in range(len(parts))],
                   'edges': [[a, b, d['order']] for a, b, d in g0.edges(data=True)]}
         return {'layered': layered, 'flat': flat, 'coarse_last': True, 'levels': n_int, 'expect_cg': expect,
-                'nparts': len(parts), 'squash': used_squash}
+                'nparts': len(parts), 'squash': used_squash, 'reuse_names': reuse_names}
     layered = base + '.' + '.'.join(layers + [block(last_defs)])
     flat = flat_base + '.' + block(last_defs)
     return {'layered': layered, 'flat': flat, 'coarse_last': False, 'levels': n_int + 1, 'mol': mol_dump(m),
-            'nparts': len(parts), 'squash': used_squash}
+            'nparts': len(parts), 'squash': used_squash, 'reuse_names': reuse_names}
